@@ -23,7 +23,14 @@ PROP_FLAGS = ["foreign-killme-cancelled", "deco-killme-claims"]
 
 
 # ------------------------------------------------------------------------------------------------
-def gen_prog(r, tags, me, foreign_km_ok=True, is_foreign=False):
+# where the code that calls task.unique lives: "own" = the function the trigger / service started (the task's
+# starting context), "c3" = a function imported from modules/shared.py, "c1" / "c2" = a function of that script
+# file handed over as an object.  A pyscript function runs in the global context it was defined in, whoever calls
+# it, and the unique name belongs to THAT context.
+WHERE_ROAM = ["own", "own", "c3", "c3", "c3", "c1", "c2"]
+
+
+def gen_prog(r, tags, me, foreign_km_ok=True, is_foreign=False, roam=False):
     p = []
     for _ in range(r.randint(1, 4)):
         k = r.random()
@@ -31,7 +38,7 @@ def gen_prog(r, tags, me, foreign_km_ok=True, is_foreign=False):
             km = r.random() < 0.3
             if is_foreign and not foreign_km_ok:
                 km = False
-            p.append(["unique", r.choice(["n1", "n1", "n2", "n3"]), km])
+            p.append(["unique", r.choice(["n1", "n1", "n2", "n3"]), km, r.choice(WHERE_ROAM) if roam else "own"])
         elif k < 0.85:
             p.append(["sleep", r.choice([0, 1, 1, 2, 3])])
         elif k < 0.90:
@@ -47,6 +54,7 @@ def gen_prog(r, tags, me, foreign_km_ok=True, is_foreign=False):
 
 def gen_scenario(r, sid, masked):
     legacy = r.random() < 0.5
+    roam = r.random() < 0.5       # half of the scenarios: task.unique is (also) called from code of other global contexts
     n = r.randint(2, 5)
     tags = tl.TASKS[:n]
     events = []
@@ -55,7 +63,7 @@ def gen_scenario(r, sid, masked):
         at = r.choice([0, 0, 1, 1, 2, 3])
         how = r.choice(["svc", "svc", "ev", "ev", "st", "deco", "deco"])
         ev = {"at": at, "do": "spawn", "tag": t, "how": how, "ctx": r.choice(["c1", "c1", "c2"]),
-              "prog": gen_prog(r, tags, t)}
+              "prog": gen_prog(r, tags, t, roam=roam)}
         if how == "deco":
             ev["dn"] = r.choice(["n1", "n1", "n2"])
             ev["dkm"] = r.random() < 0.5
@@ -66,16 +74,16 @@ def gen_scenario(r, sid, masked):
         events.append(ev)
     if r.random() < 0.3:
         events.append({"at": r.choice([0, 1, 2]), "do": "spawn", "tag": "f1", "how": "foreign", "ctx": r.choice(["c1", "c2"]),
-                       "prog": gen_prog(r, tags, "f1", foreign_km_ok=not masked, is_foreign=True)})
+                       "prog": gen_prog(r, tags, "f1", foreign_km_ok=not masked, is_foreign=True, roam=roam)})
     r.shuffle(events)
     events.sort(key=lambda e: e["at"])
     horizon = int(max(e["at"] for e in events)) + max(sum(o[1] for o in e["prog"] if o[0] == "sleep") for e in events) + 2
-    return {"sid": sid, "legacy": legacy, "masked": masked, "events": events, "horizon": horizon,
+    return {"sid": sid, "legacy": legacy, "masked": masked, "roam": roam, "events": events, "horizon": horizon,
             "snaps": [k + 0.5 for k in range(horizon + 1)]}
 
 
-def contended(case):
-    """Non-trivial: at least two tasks call task.unique on the same (context, name)."""
+def claimants(case):
+    """(context of the calling code, name) -> tasks that call task.unique on it; starting context of every task."""
     ctx_of = {}
     keys = {}
     for ln in case["trace"]:
@@ -84,8 +92,21 @@ def contended(case):
             if ln["k"] == "spawn" and ln["dn"] != "-":
                 keys.setdefault((ln["c"], ln["dn"]), set()).add(ln["t"])
         elif ln["k"] == "op" and ln["op"] == "unique":
-            keys.setdefault((ctx_of.get(ln["t"]), ln["n"]), set()).add(ln["t"])
+            keys.setdefault((ln["c"], ln["n"]), set()).add(ln["t"])
+    return keys, ctx_of
+
+
+def contended(case):
+    """Non-trivial: at least two tasks call task.unique on the same (context, name)."""
+    keys, _ = claimants(case)
     return any(len(v) > 1 for v in keys.values())
+
+
+def roam_contended(case):
+    """Tasks started in DIFFERENT global contexts call task.unique on the same name from code of one and the same
+    global context (an imported module's function, a function of one of the files)."""
+    keys, ctx_of = claimants(case)
+    return any(len({ctx_of.get(t) for t in v}) > 1 for v in keys.values())
 
 
 def witnesses():
@@ -103,26 +124,50 @@ def witnesses():
     return out
 
 
+def roam_fixed():
+    """Always part of the run: a name claimed from code of a third global context by tasks started in two different
+    files (the later claim kills the earlier one), next to the same spelling claimed by a script in its own context
+    (never touched), kill_me inside the shared code; both subsystems."""
+    out = []
+    for legacy in (False, True):
+        for km in (False, True):
+            out.append({"sid": "m/roam-fixed/%s/%s" % ("legacy" if legacy else "dm", "km" if km else "plain"), "legacy": legacy,
+                        "masked": True, "roam": True, "horizon": 5, "snaps": [0.5, 1.5, 2.5, 4.5], "events": [
+                {"at": 0, "do": "spawn", "tag": "t1", "how": "svc", "ctx": "c1", "prog": [["unique", "n1", False, "c3"], ["sleep", 3]]},
+                {"at": 0, "do": "spawn", "tag": "t3", "how": "ev", "ctx": "c1", "prog": [["unique", "n1", False, "own"], ["sleep", 3]]},
+                {"at": 1, "do": "spawn", "tag": "t2", "how": "ev", "ctx": "c2",
+                 "prog": [["unique", "n1", km, "c3"], ["unique", "n1", False, "c1"], ["sleep", 1]]}]})
+    return out
+
+
 # ------------------------------------------------------------------------------------------------
 def model_runs(ctx):
     """(name, thunk) list of the (M) runs of this tier."""
     runs = []
     inv = tl.C13_INV
 
-    def stmt(name, consts, expect_unseen, workers=1, sym=True):
+    def stmt(name, consts, expect_unseen, workers=1, sym=True, upto=13):
         # the witness registers are per TLC worker: only single-worker runs carry them
         def go():
             cfg = tl.mc_cfg(ctx, name, consts, inv, symmetry=sym, witness=workers == 1)
             res = tlc.run("Tasks", cfg, ctx.scratch, workers=tl.tlc_workers(workers), timeout=3000)
-            return ("stmt" if workers == 1 else "big", name, res, expect_unseen)
+            return ("stmt" if workers == 1 else "big", name, res, (expect_unseen, upto))
         return go
     # witnesses: 1 killed, 2 cparked, 3 two claimants, 6 head-of-line (needs an exit that suspends: not here), 8 refused
     # (11-13 are situations of blocking service calls, C14: no "call" operation in the C13 configurations)
     runs.append(stmt("c13_3x2x2", {}, {4, 5, 6, 7, 8, 9, 10, 11, 12, 13}))
+    # tasks that call task.unique from code of any global context (Roam): 14 a name held in another context than the
+    # starting one, 15 killed by a task started in another context, 16 one spelling owned twice by tasks of one
+    # starting context - all three must be visited
+    runs.append(stmt("c13_roam_2x2x2", {"Task": "{t1, t2}", "Roam": "TRUE"}, {4, 5, 6, 7, 8, 9, 10, 11, 12, 13}, upto=16))
     runs.append(stmt("c13_foreign_deco", {"Task": "{t1, t2}", "Foreign": "{f1}", "Name": "{n1}", "Kinds": '{"trig"}',
                                           "Ctx": "{c1}", "MaxOps": "1",
                                           "Ops": '{"unique", "sleep"}', "Decos": "<- DecosAll"}, {4, 5, 6, 7, 9, 10, 11, 12, 13}))
     if not ctx.quick:
+        runs.append(stmt("c13_roam_3x2x2", {"Roam": "TRUE"}, None, workers=4))
+        runs.append(stmt("c13_roam_foreign_deco", {"Task": "{t1, t2}", "Foreign": "{f1}", "Name": "{n1}", "Kinds": '{"trig"}',
+                                                   "Roam": "TRUE", "Ops": '{"unique", "sleep"}', "Decos": "<- DecosAll"},
+                         None, workers=4))
         runs.append(stmt("c13_foreign_deco_2ctx_ops2", {"Task": "{t1, t2}", "Foreign": "{f1}", "Name": "{n1}", "Kinds": '{"trig", "svc"}',
                                                         "MaxOps": "2", "Ops": '{"unique", "sleep"}', "Decos": "<- DecosAll"}, None, workers=4))
         runs.append(stmt("c13_3x2x2_ops3", {"MaxOps": "3"}, None, workers=6))
@@ -131,7 +176,7 @@ def model_runs(ctx):
 
         def sim():
             cfg = tl.mc_cfg(ctx, "c13_sim", {"Task": "{t1, t2, t3, t4, t5}", "Foreign": "{f1}", "Name": "{n1, n2, n3}",
-                                             "MaxOps": "4", "MaxEnv": "2", "Kinds": '{"trig", "svc"}', "Decos": "<- DecosAll",
+                                             "Roam": "TRUE", "MaxOps": "4", "MaxEnv": "2", "Kinds": '{"trig", "svc"}', "Decos": "<- DecosAll",
                                              "Ops": '{"unique", "sleep", "raise", "cancel"}'}, inv, symmetry=False)
             res = tlc.run("Tasks", cfg, ctx.scratch, workers=tl.tlc_workers(4), timeout=3000,
                           extra=["-simulate", "num=3000", "-depth", "60", "-seed", str(ctx.seed + 1)])
@@ -164,7 +209,9 @@ def absorb_model(ctx, outs):
                 ctx.cov["states"] += int(m.group(1))
                 ctx.cov["transitions"] += int(m.group(1))
         if kind == "stmt":
-            bad = set(tl.unseen(res)) - expect_unseen
+            # (c14.py passes plain sets: witness situations 1-13 only)
+            expect_unseen, upto = expect_unseen if isinstance(expect_unseen, tuple) else (expect_unseen, 13)
+            bad = set(tl.unseen(res, upto)) - expect_unseen
             if bad:
                 raise MachineryFailure("Tasks %s: witness situations never visited: %s" % (name, sorted(bad)))
     ctx.cov["flag_demos_violated_as_expected"] = nflag
@@ -186,7 +233,7 @@ def main(ctx):
             masked = k % 2 == 1
             scns.append(gen_scenario(r, "%s/%d.%d" % ("m" if masked else "u", j, k), masked))
     jobs = [{"scns": scns[j::njobs]} for j in range(njobs)]
-    jobs[0]["scns"] = witnesses() + jobs[0]["scns"]
+    jobs[0]["scns"] = witnesses() + roam_fixed() + jobs[0]["scns"]
     # development on a shared machine: VERIF_NPROC=4 caps the check at about four processes
     dev_cap = int(os.environ.get("VERIF_NPROC", 0))
     nproc = max(1, dev_cap - 1) if dev_cap else njobs
@@ -210,8 +257,22 @@ def main(ctx):
     ctx.cov["rule"] = ("random scenarios: 2-5 pyscript tasks (+ a foreign task in 30 %) started at 0-3 s (same-instant starts "
                        "frequent) by service calls, @event_trigger, @state_trigger and @task_unique-decorated triggers in two "
                        "global contexts, programs of 1-4 operations unique(n1|n2|n3, kill_me) / sleep(0-3 s) / raise / "
-                       "task.cancel(self|other), both decorator subsystems, registries snapshotted every second; "
+                       "task.cancel(self|other), both decorator subsystems, registries snapshotted every second; in half of the "
+                       "scenarios task.unique is called from code of any of three global contexts (the task's own function, "
+                       "a function imported from modules/, a function object of either script file) and task.name2id() is "
+                       "read there after every call; "
                        "non-trivial = at least two tasks call task.unique on the same (context, name); distinct by scenario")
+    nroam = len([c for c in gen if roam_contended(c)])
+    ctx.cov["roaming"] = {"scenarios_with_calls_from_other_contexts": len([c for c in gen if c["scn"].get("roam")]),
+                          "same_key_claimed_by_tasks_of_different_starting_contexts": nroam,
+                          "unique_calls_by_code_context": {
+                              w: len([1 for c in gen for ln in c["trace"] if ln["k"] == "op" and ln["op"] == "unique"
+                                      and ln["lc"] == w]) for w in ("c1", "c2", "c3")},
+                          "calls_where_current_context_is_not_the_defining_one": len(
+                              [1 for c in gen for ln in c["trace"] if ln["k"] == "op" and ln["op"] == "unique" and ln["c"] != ln["lc"]]),
+                          "name2id_views_checked": len([1 for c in gen for ln in c["trace"] if ln["k"] == "n2i"])}
+    if not nroam:
+        raise MachineryFailure("no recording in which tasks of different starting contexts claim one (context, name)")
     ctx.cov["masked_cases"] = len([c for c in gen if c["scn"]["masked"]])
     ctx.cov["masked_rejections"] = nmask
     ctx.cov["unmasked_cases"] = len([c for c in gen if not c["scn"]["masked"]])
@@ -223,7 +284,8 @@ def main(ctx):
             a = ln["k"] + (":" + ln["op"] if ln["k"] == "op" else "")
             acts[a] = acts.get(a, 0) + 1
     ctx.cov["logged_actions"] = acts
-    ctx.cov["bounds"] = {"tasks": 5, "foreign": 1, "names": 3, "contexts": 2, "ops_per_task": 4}
+    ctx.cov["bounds"] = {"tasks": 5, "foreign": 1, "names": 3, "contexts": "2 starting contexts (script files) + 1 module context",
+                         "ops_per_task": 4}
     for c in gen[:2]:
         ctx.sample({"id": c["id"], "legacy": c["scn"]["legacy"], "events": c["scn"]["events"], "trace_lines": len(c["trace"]),
                     "verdict": why.get(c["id"], "accepted")})
